@@ -447,6 +447,7 @@ func TestCheck(t *testing.T) {
 		n := r.Intn(14)
 		var snaps []*spb.AFTOperation
 		var snapWants []*spb.AFTOperation
+		var entrySnaps, entrySnapWants []*spb.AFTEntry
 		for k := 0; k < n; k++ {
 			b.step(r)
 			if r.Intn(4) == 0 {
@@ -460,6 +461,21 @@ func TestCheck(t *testing.T) {
 				snapWants = append(snapWants, b.wantOp())
 				b.calls = append(b.calls, "-> OpProto()")
 			}
+			if r.Intn(5) == 0 {
+				// the entry form too: taken mid-program it must say what the calls so far specify,
+				// and must not be altered (nor be handed out again) after later calls
+				en, err := b.real.EntryProto()
+				if err != nil {
+					run.Violation(caseID, "entryproto-error", err.Error(), b.calls)
+					return
+				}
+				b.calls = append(b.calls, "-> EntryProto()")
+				if w := b.wantEntry(); !proto.Equal(en, w) {
+					run.Violation(caseID, "builder-entry-differs:"+b.kind+":"+diffField(w, en), fmt.Sprintf("EntryProto() taken mid-program = %s, the calls made so far specify %s", pt(en), pt(w)), b.calls)
+				}
+				entrySnaps = append(entrySnaps, en)
+				entrySnapWants = append(entrySnapWants, b.wantEntry())
+			}
 		}
 		op, err1 := b.real.OpProto()
 		en, err2 := b.real.EntryProto()
@@ -472,6 +488,11 @@ func TestCheck(t *testing.T) {
 		}
 		if w := b.wantEntry(); !proto.Equal(en, w) {
 			run.Violation(caseID, "builder-entry-differs:"+b.kind+":"+diffField(w, en), fmt.Sprintf("EntryProto() = %s, the calls made specify %s", pt(en), pt(w)), b.calls)
+		}
+		for k := range entrySnaps {
+			if !proto.Equal(entrySnaps[k], entrySnapWants[k]) {
+				run.Violation(caseID, "earlier-message-altered-by-later-builder-calls:"+b.kind, fmt.Sprintf("an entry taken with EntryProto() earlier now reads %s, it was %s", pt(entrySnaps[k]), pt(entrySnapWants[k])), b.calls)
+			}
 		}
 		for k := range snaps {
 			if !proto.Equal(snaps[k], snapWants[k]) {
@@ -503,7 +524,7 @@ func TestCheck(t *testing.T) {
 		clientProgram(run, caseID, run.Rand(caseID), i%5 != 4)
 	})
 	run.Assume("'last call wins' at the granularity each method documents (WithSubinterfaceRef = interface+subinterface, WithIPinIP = source+destination, With*LabelStack = the whole stack); encapsulation-header builders are configured completely before they are added and not touched afterwards")
-	run.Finish("(a) random programs of 0-13 builder calls per entry kind (every With*/Add* method, any order, repeats, OpProto() taken mid-program) interpreted twice - by the real builders and by an expectation constructed directly from the call log - and compared with proto.Equal, for OpProto() and EntryProto(); messages taken earlier are re-compared at the end; (b) client programs of AddEntry/ReplaceEntry/DeleteEntry/UpdateElectionID with reused and re-modified builders, through fresh Modify() handles and handles held across other calls, through a recording stub stream: ids 1,2,3.. in order, requested operation type, election stamp = most recently set id unless the entry carries its own (none in ALL_PRIMARY mode), each captured request deep-copied at capture and re-compared at the end. Distinct = by call log", 500, false)
+	run.Finish("(a) random programs of 0-13 builder calls per entry kind (every With*/Add* method, any order, repeats, OpProto() and EntryProto() taken mid-program) interpreted twice - by the real builders and by an expectation constructed directly from the call log - and compared with proto.Equal, for OpProto() and EntryProto(); messages taken earlier are re-compared at the end; (b) client programs of AddEntry/ReplaceEntry/DeleteEntry/UpdateElectionID with reused and re-modified builders, through fresh Modify() handles and handles held across other calls, through a recording stub stream: ids 1,2,3.. in order, requested operation type, election stamp = most recently set id unless the entry carries its own (none in ALL_PRIMARY mode), each captured request deep-copied at capture and re-compared at the end. Distinct = by call log", 500, false)
 }
 
 // diffField names the first top-level payload field in which two messages differ.
@@ -553,6 +574,7 @@ func clientProgram(run *ev.Run, caseID string, r *rand.Rand, elected bool) {
 	var trace []string
 	var want []*spb.AFTOperation // expected operations in order
 	var problems []string
+	failedBuilds := 0
 	cur := &spb.Uint128{Low: uint64(1 + r.Intn(5)), High: uint64(r.Intn(2))}
 	fatal := tb.Run(func(t testing.TB) {
 		c := fluent.NewClient()
@@ -572,14 +594,17 @@ func clientProgram(run *ev.Run, caseID string, r *rand.Rand, elected bool) {
 		type handle struct {
 			add, rep, del func(es ...fluent.GRIBIEntry)
 			upd           func(lo, hi uint64)
+			// addT: AddEntry reporting to another testing.TB (for requests that cannot be built)
+			addT func(tt testing.TB, es ...fluent.GRIBIEntry)
 		}
 		mk := func() handle {
 			m := c.Modify()
 			return handle{
-				add: func(es ...fluent.GRIBIEntry) { m.AddEntry(t, es...) },
-				rep: func(es ...fluent.GRIBIEntry) { m.ReplaceEntry(t, es...) },
-				del: func(es ...fluent.GRIBIEntry) { m.DeleteEntry(t, es...) },
-				upd: func(lo, hi uint64) { m.UpdateElectionID(t, lo, hi) },
+				add:  func(es ...fluent.GRIBIEntry) { m.AddEntry(t, es...) },
+				rep:  func(es ...fluent.GRIBIEntry) { m.ReplaceEntry(t, es...) },
+				del:  func(es ...fluent.GRIBIEntry) { m.DeleteEntry(t, es...) },
+				upd:  func(lo, hi uint64) { m.UpdateElectionID(t, lo, hi) },
+				addT: func(tt testing.TB, es ...fluent.GRIBIEntry) { m.AddEntry(tt, es...) },
 			}
 		}
 		var held []handle
@@ -603,6 +628,30 @@ func clientProgram(run *ev.Run, caseID string, r *rand.Rand, elected bool) {
 				h.upd(lo, hi)
 				cur = &spb.Uint128{Low: lo, High: hi}
 				trace = append(trace, fmt.Sprintf("UpdateElectionID(%d,%d) on a %s", lo, hi, hn))
+			case x == 9 && r.Intn(2) == 0:
+				// a request that cannot be built (an entry whose OpProto fails, or that carries an
+				// explicit operation id): the call is fatal for the test that made it, nothing is
+				// queued, and the ids of everything queued before and after stay distinct and increasing
+				var es []fluent.GRIBIEntry
+				nGood := r.Intn(3)
+				for k := 0; k < nGood; k++ {
+					b := newBuilder(kinds[r.Intn(5)])
+					b.step(r)
+					es = append(es, b.real)
+				}
+				es = append(es, badEntry{explicitID: r.Intn(2) == 0})
+				if r.Intn(2) == 0 {
+					b := newBuilder(kinds[r.Intn(5)])
+					b.step(r)
+					es = append(es, b.real)
+				}
+				h, hn := pickHandle()
+				sub := &mon.TB{}
+				if !sub.Run(func(tt testing.TB) { h.addT(tt, es...) }) {
+					problems = append(problems, "unbuildable-request-accepted|AddEntry with an entry that cannot be built did not fail the test")
+				}
+				failedBuilds++
+				trace = append(trace, fmt.Sprintf("AddEntry(%d buildable entries + one that cannot be built) on a %s", len(es)-1, hn))
 			case x < 4 && len(pool) > 0:
 				// modify a builder that was already used in a queued message
 				b := pool[r.Intn(len(pool))]
@@ -672,6 +721,15 @@ func clientProgram(run *ev.Run, caseID string, r *rand.Rand, elected bool) {
 	}
 	for k := 0; k < len(got) && k < len(want); k++ {
 		g, w := got[k], want[k]
+		if failedBuilds > 0 {
+			// ids burnt by requests that could not be built leave gaps: what remains required is
+			// "distinct and strictly increasing"
+			if k > 0 && g.Id <= got[k-1].Id {
+				problems = append(problems, fmt.Sprintf("operation-id|operation #%d carries id %d after id %d: ids must be distinct and strictly increasing (the program contains requests that could not be built)", k+1, g.Id, got[k-1].Id))
+				continue
+			}
+			w.Id = g.Id
+		}
 		switch {
 		case g.Id != w.Id:
 			problems = append(problems, fmt.Sprintf("operation-id|operation #%d carries id %d, expected %d", k+1, g.Id, w.Id))
@@ -706,4 +764,17 @@ func elecWord(r *rand.Rand, low bool) uint64 {
 		return uint64(1 + r.Intn(9))
 	}
 	return uint64(r.Intn(3))
+}
+
+// badEntry is a GRIBIEntry that cannot be turned into an operation.
+type badEntry struct{ explicitID bool }
+
+func (b badEntry) OpProto() (*spb.AFTOperation, error) {
+	if b.explicitID {
+		return &spb.AFTOperation{Id: 77, NetworkInstance: "DEFAULT", Entry: &spb.AFTOperation_NextHop{NextHop: &aftpb.Afts_NextHopKey{Index: 1, NextHop: &aftpb.Afts_NextHop{}}}}, nil
+	}
+	return nil, fmt.Errorf("this entry cannot be built")
+}
+func (b badEntry) EntryProto() (*spb.AFTEntry, error) {
+	return nil, fmt.Errorf("this entry cannot be built")
 }
